@@ -57,7 +57,7 @@ Print Assumptions C11_fn_body.
    jump whose only successor is the exit. *)
 Definition C11_exit_statement : Prop :=
   forall picks ns g,
-    (* nobody wrote `jal x0, __return__` by hand (the spelling of a merged return) *)
+    (* nobody wrote `jal x0, <return>` by hand (the spelling of a merged return) *)
     (forall n, In n ns -> is_return_merge n = false) ->
     gen_full_cfg picks ns = Ok (SOk g) ->
     forall fid f, nth_opt (gfuncs g) fid = Some f ->
